@@ -24,7 +24,7 @@ PRINTABLE = {"scram"}                      # SASLprep: identity on printable ASC
 DISABLED = {"unix_disabled", "django_disabled"}
 PLAIN = {"plaintext", "ldap_plaintext", "roundup_plaintext"}
 #: outside this check, with the reason (reported in the evidence)
-SKIP = {"mysql323": "62-bit arithmetic hash: distinct passwords do collide by construction, and the multiplications are beyond the solver",
+SKIP = {"mysql323": "62-bit arithmetic hash: distinct passwords collide by construction, so 'no other password verifies' is not claimed; its routine is compared with MySQL's hash_password() instead (mysql323[n])",
         "sun_md5_crypt": "data-dependent indexing by digest bits (symbolic shift amounts) is not modelled",
         "argon2": "no backend in this sandbox"}
 
@@ -228,6 +228,9 @@ def ob_text(name, pattern):
     H = registry.get_crypt_handler(name)
     Hc = _cheap(H, name)
     kw = c08.ctxkw(H)
+    if name in PRINTABLE or name in CASEFOLD or name in ("oracle10",):
+        # SASLprep / legacy code pages / case folding of non-ASCII text are outside the models: ASCII text only
+        pattern = (1,) * len(pattern)
     t, con = SStr.var("t", pattern)
     sbytes.FRESH_DIGESTS = True
 
@@ -270,6 +273,86 @@ def ob_text(name, pattern):
               paths=len(paths))
 
 
+# ------------------------------------------------------------------ mysql323: an arithmetic hash, compared with MySQL's published routine
+def _mysql323_ref_sint(s):
+    """the same routine written from MySQL's source over the shadow integers, evaluated on the current path (so the skip
+    decisions fork exactly like the code under test); a correct implementation produces syntactically identical terms"""
+    M = 0xFFFFFFFF
+    nr, nr2, add = 1345345333, 0x12345671, 7
+    for c in s:
+        if sym.elem_in(c, [0x20, 0x09]):
+            continue
+        nr = nr ^ (((((nr & 63) + add) * c) + (nr << 8)) & M)
+        nr2 = (nr2 + ((nr2 << 8) ^ nr)) & M
+        add = (add + c) & M
+    return nr & 0x7FFFFFFF, nr2 & 0x7FFFFFFF
+
+
+def ob_mysql323(n):
+    from passlib.hash import mysql323 as H
+    s1 = SBytes.var("p", n)
+    hexd = "0123456789abcdef"
+
+    def run():
+        h = H.hash(s1)
+        return h, H.verify(s1, h), _mysql323_ref_sint(s1)
+    try:
+        with patched(*_env(H)):
+            paths = explore(run, max_paths=3000)
+    except Unsupported as e:
+        return inconclusive("Unsupported: %s" % e)
+    done = 0
+    for p in paths:
+        if p.exc is not None:
+            if isinstance(p.exc, Unsupported):
+                return inconclusive("Unsupported: %s" % p.exc)
+            r, m = check(p.cond())
+            if r == "sat":
+                return _viol("mysql323", m, s1, s1, "hash() raises %r" % (p.exc,), "raises")
+            continue
+        h, v, (r1, r2) = p.result
+        h = SStr.lift(h)
+        if len(h) != 16:
+            return _viol("mysql323", check(p.cond())[1], s1, s1, "hash() returns %d characters" % len(h), "shape")
+        from vlib.instrument import vfstr
+        ref_text = SStr.lift(vfstr([(r1, -1, "08x"), (r2, -1, "08x")]))     # rendered like the code renders: same tables, same terms
+        eq = (h == ref_text)
+        diff = z3.simplify(z3.Not(eq.e)) if isinstance(eq, SBool) else z3.BoolVal(not eq)
+        if not z3.is_false(diff):
+            r, m = check(p.cond(), diff, timeout_ms=120000)
+            if r == "sat":
+                return _viol("mysql323", m, s1, s1, "hash() differs from MySQL's hash_password() (only blank and tab are skipped)", "vs-reference")
+            if r != "unsat":
+                return inconclusive("solver %s" % r)
+        r, m = check(p.cond(), z3.Not(_bool(v)))
+        if r == "sat":
+            return _viol("mysql323", m, s1, s1, "verify() rejects the password the hash was made from", "rejects-own")
+        done += 1
+    return ok("mysql323: %d symbolic password bytes (all values): the hash is MySQL's hash_password() with exactly blank and tab "
+              "skipped, and verifies (%d paths)" % (n, done), paths=len(paths))
+
+
+def replay_mysql323(p):
+    from passlib.hash import mysql323 as H
+    p = bytes(p)
+    nr, nr2, add = 1345345333, 0x12345671, 7
+    M = 0xFFFFFFFF
+    for c in p:
+        if c in b" \t":
+            continue
+        nr ^= ((((nr & 63) + add) * c) + (nr << 8)) & M
+        nr2 = (nr2 + ((nr2 << 8) ^ nr)) & M
+        add = (add + c) & M
+    want = "%08x%08x" % (nr & 0x7FFFFFFF, nr2 & 0x7FFFFFFF)
+    try:
+        h = H.hash(p)
+    except Exception as e:
+        return "mysql323.hash(%r) raises %r" % (p, e)
+    if h != want:
+        return "mysql323.hash(%r) = %s, MySQL's routine gives %s" % (p, h, want)
+    return (not H.verify(p, h)) and "mysql323 does not verify its own hash of %r" % (p,)
+
+
 def _viol(name, m, s1, s2, what, kind):
     g = lambda s: [m.eval(_t8(b), True).as_long() for b in s.b] if m is not None else [65] * len(s)   # noqa
     a, b = g(s1), g(s2)
@@ -298,6 +381,8 @@ def _same(name, a, b):
 
 def replay_pair(name, p, q):
     from passlib import registry
+    if name == "mysql323":
+        return replay_mysql323(p)
     H = registry.get_crypt_handler(name)
     Hc = _cheap(H, name)
     kw = c08.ctxkw(H)
@@ -362,6 +447,8 @@ def run(tier, seed, t0, only=None):
             if tier == "quick" and n not in core:
                 continue
             obs.append(Ob("text[%s,%s]" % (n, "".join(map(str, pt))), ob_text, {"name": n, "pattern": pt}, timeout=420))
+    for n in ((1, 2, 3) if tier == "quick" else (1, 2, 3, 4, 5)):
+        obs.append(Ob("mysql323[%d]" % n, ob_mysql323, {"n": n}, timeout=900))
     if only:
         obs = [o for o in obs if only in o.name]
     results = runner.run_obligations(obs)
